@@ -11,8 +11,15 @@ use std::alloc::{GlobalAlloc, Layout, System};
 use std::cell::RefCell;
 
 pub const GUARD: usize = 64;
-pub const GUARD_BYTE: u8 = 0xCA;
-pub const POISON: u8 = 0xFD;
+/// Byte values >= 0xF7 never occur in a valid element encoding of size >= 1 as the leading
+/// tag bytes, so each instrumentation pattern is recognisable in memory.
+pub const GUARD_BYTE: u8 = 0xF9;
+/// fresh and released storage
+pub const POISON: u8 = 0xFA;
+/// spare-capacity poison written by the harness between steps, by slot index modulo 4
+pub const SPARE_POISON: [u8; 4] = [0xFB, 0xFC, 0xFD, 0xFF];
+/// destroyed element (scribbled by the simulated element's Drop)
+pub const DEAD: u8 = 0xFE;
 
 #[derive(Clone, Copy, Debug, PartialEq, Eq)]
 pub enum BlockState {
